@@ -29,6 +29,8 @@ CLAIMED = {
             "the route contract (non-empty slash-free prefix, non-empty path identifier) is an assumption about the web frameworks validated only by the run"),
     "C18": ("6 C18", "PARTIAL. Proved: C18_answers / C18_answers_expand_all (the triples oracle yields exactly the syntactically valid members of expand_all(compress(u)); nothing for unrecognised URIs or other predicates) and C18_header (handle_header = highest-q supported-or-synonym media type, first listed on ties, default SPARQL XML; via correctness of the stable descending sort, C18_sort_first); the content-type tables are tied by generated obligations. Not modelled: rdflib's SPARQL parser / evaluator / VALUES re-ordering, serialisers, Flask / FastAPI -- exercised by issuing real SPARQL four ways (?s / ?o bound x VALUES inside / after WHERE) through graph.query, Flask GET+POST and FastAPI GET and comparing the bindings and the Content-Type.",
             "FastAPI POST is not exercisable in this sandbox (python-multipart missing); invariance under optional whitespace is checked by the run (OWS-rich generated headers), not yet a theorem; q-values with at most 3 decimals"),
+    "C15": ("6 C15", "PARTIAL. Proved on the model of the four reference classes: C15_roundtrip / C15_first_separator / C15_rejects_separator_free (print and parse, first separator only), C15_eq_pair / C15_eq_equivalence / C15_name_never_matters / C15_tuple_is_plain / C15_hash (for ANY hash of the pair), C15_lt_strict_total (strict total lexicographic order), C15_ctx (converter context standardises or rejects), C15_triples. Not modelled: pydantic (frozen, JSON, validation machinery) and csv / file I/O -- exercised on the real classes and real files (CR, LF, tab, quotes, Unicode in identifiers).",
+            "the model's observation vector is also the specification (the functions are the definitions of the property's notions); immutability, JSON and file round trips are observed only"),
 }
 NOT_YET = {}
 
